@@ -18,4 +18,7 @@ CASES = [
          old="        def _wrap_curried(curry_arg: _A) -> _B:\n            return fun(curry_arg, *args, **kwargs)",
          new="        cache = {}\n\n        def _wrap_curried(curry_arg: _A) -> _B:\n            if 'r' not in cache:\n                cache['r'] = fun(curry_arg, *args, **kwargs)\n            return cache['r']")]),
     dict(expect="silent", desc="ref_count: rename locals", edits=[dict(file=RC, old="should_connect", new="first_subscriber", count=2)]),
+    dict(expect="fire", desc="seed C44-r2/2: publish_value builds its subject through a factory call in the operator factory body", names="E1-L0-rx-object", edits=[dict(file="reactivex/operators/_publishvalue.py",
+         old="    def publish_value(source: Observable[_T1]) -> ConnectableObservable[_T1]:\n        subject = BehaviorSubject(initial_value)\n        return source.pipe(ops.multicast(subject))\n\n    return publish_value",
+         new="    def make() -> BehaviorSubject[_T1]:\n        return BehaviorSubject(initial_value)\n\n    return ops.multicast(make())")]),
 ]
